@@ -123,7 +123,7 @@ pub fn generate(ctx: &mut Ctx, which: Which) -> Option<Fam> {
 }
 
 pub fn generate_with(ctx: &mut Ctx, which: Which, tweak: impl FnOnce(&mut scen::CompressSpec)) -> Option<Fam> {
-    let big = ctx.tier == Tier::Thorough && gen::chance(1, 40);
+    let big = gen::chance(1, if ctx.tier == crate::harness::Tier::Thorough { 40 } else { 600 });
     let max_len = if big { 3 << 20 } else { 64 * 1024 };
     let made = crate::props::c01::make_archive_with(ctx, max_len, big, None, tweak)?;
     generate_from(ctx, which, made)
@@ -382,6 +382,13 @@ fn collision_possible(f: &Fam) -> bool {
     f.made.spec.hash_len < 8
 }
 
+/// two descriptors of the archive share their stored (truncated) checksum: different chunks
+/// of the source collide under the chosen hash length, no reader can tell them apart
+pub fn truncated_twins(ra: &RefArchive) -> bool {
+    let mut seen = std::collections::HashSet::new();
+    ra.dict.descriptors.iter().any(|d| !seen.insert(&d.checksum[..]))
+}
+
 pub fn check_output(ctx: &mut Ctx, f: &Fam, ob: &Observed) -> bool {
     let outcome = ob.outcome.clone().unwrap();
     let src = &f.made.source;
@@ -393,7 +400,7 @@ pub fn check_output(ctx: &mut Ctx, f: &Fam, ob: &Observed) -> bool {
     let exact_len = f.level2 && !f.blockdev;
     let cmp = if exact_len { &out[..] } else { &out[..out.len().min(src.len())] };
     if cmp != &src[..] || out.len() < src.len() {
-        if collision_possible(f) && expect(f).collision {
+        if collision_possible(f) && (truncated_twins(&f.ra) || expect(f).collision) {
             simkit::count("hash-collision-exempt");
             return false;
         }
@@ -408,7 +415,7 @@ pub fn check_output(ctx: &mut Ctx, f: &Fam, ob: &Observed) -> bool {
 
 pub fn check_fetch(ctx: &mut Ctx, f: &Fam, ob: &Observed) {
     let ex = expect(f);
-    if ex.collision {
+    if ex.collision || truncated_twins(&f.ra) {
         simkit::count("hash-collision-exempt");
         return;
     }
@@ -460,7 +467,7 @@ pub fn check_fetch(ctx: &mut Ctx, f: &Fam, ob: &Observed) {
 
 pub fn check_writes(ctx: &mut Ctx, f: &Fam, ob: &Observed) {
     let ex = expect(f);
-    if ex.collision {
+    if ex.collision || truncated_twins(&f.ra) {
         simkit::count("hash-collision-exempt");
         return;
     }
